@@ -299,7 +299,7 @@ func cellC14(c *vh.Case, header, class, outcome string, required, granted []stri
 		return
 	}
 	// challenge
-	ch := rec.Header().Values("WWW-Authenticate")
+	ch := rec.Result().Header.Values("WWW-Authenticate") // the headers as they stood when the status line was written, which is what a client gets
 	wantURL := opts != nil && opts.ResourceMetadataURL != ""
 	wantScope := opts != nil && len(opts.Scopes) > 0
 	if stacked && class != "valid" {
